@@ -120,6 +120,7 @@ def m_invert_pi1(d1, d0, br):
         br["invert_pi1.a"] += 1; v = (v - 1) & M
         mask = M if p >= d1 else 0
         if mask: br["invert_pi1.a_mask"] += 1
+        if p == d1: br["invert_pi1.a_p_eq_d1"] += 1
         p = (p - d1) & M; v = (v + mask) & M; p = (p - (mask & d1)) & M
     else: br["invert_pi1.not_a"] += 1
     t1, t0 = _umul(d0, v); p = (p + t1) & M
@@ -304,16 +305,30 @@ def pi1_c_nodec(rng):
                     if b["invert_pi1.c_nodec"]: return d1, d0
     return HB, 0xc000000000000001
 
+def pi1_a_p_eq_d1(rng):
+    """(d1, d0) on which the first correction of mpir_invert_pi1 meets p == d1 exactly (the boundary of `_mask = -(_p >= d1)`,
+    gmp-impl.h:2840): with v = invert_limb (d1), p = d1*v + d0 mod B, the branch `p < d0` is taken with p == d1 iff
+    d0 = d1*(1 - v) mod B and d0 > d1.  For a given d1 at most ONE d0 of the 2^64 qualifies (about 40 % of the d1 have one), so
+    neither uniform nor run-structured data meets it; seeded change C02_b_1 (`>=` -> `>`) is wrong exactly there."""
+    for _ in range(400):
+        d1 = rng.choice([HB | rng.getrandbits(63), HB + rng.getrandbits(rng.randrange(1, 63)), M - rng.getrandbits(rng.randrange(1, 62)), HB | rrandomb(rng, 63)])
+        v = m_invert_limb(d1); d0 = (d1 * (1 - v)) & M
+        if d0 > d1:
+            b = collections.Counter(); m_invert_pi1(d1, d0, b)
+            if b["invert_pi1.a_p_eq_d1"]: return d1, d0
+    return 0x800000000002a309, 0x8000001bcfe47c4d
+
 def gen_3by2(rng, tier):
     n = 4000 if tier == "quick" else 40000
     for it in range(n):
         d1 = rng.choice([HB, HB + 1, M, M - 1, HB + rng.getrandbits(8), M - rng.getrandbits(8), HB | rng.getrandbits(63), HB | rrandomb(rng, 63)])
         d0 = rng.choice([0, 1, 2, M, M - 1, rng.getrandbits(8), M - rng.getrandbits(8), rng.getrandbits(64), rrandomb(rng, 64), HB])
         if it % 50 == 7: d1, d0 = pi1_c_nodec(rng)
+        if it % 50 == 23: d1, d0 = pi1_a_p_eq_d1(rng)
         d = (d1 << 64) | d0
         dinv = m_invert_pi1(d1, d0, BR)
         assert dinv == (B ** 3 - 1) // d - B
-        if it % 4 == 0: yield "invert_pi1 %x %x" % (d1, d0)
+        if it % 4 == 0 or it % 50 in (7, 23): yield "invert_pi1 %x %x" % (d1, d0)
         q = rng.choice([0, 1, M, M - 1, HB, rng.getrandbits(64), rng.getrandbits(8), M - rng.getrandbits(8), rrandomb(rng, 64)])
         r = rng.choice([0, 1, d - 1, d - 2, d - 1 - rng.getrandbits(8), rng.randrange(d), d - 1 - rng.getrandbits(64), d1 << 64, (d1 << 64) - 1,
                         ((d1 << 64) + rng.randrange(d0)) if d0 else 0])
